@@ -234,6 +234,14 @@ pub fn run(check: &Check, case: &ArchCase, origin: &str) -> CaseResult {
     let outcome = if r.is_ok() { "ok" } else { "err" };
     check.count(&format!("{origin}:{scen}:{}:{}:shift{}:{outcome}", types.join("+"), storage.join("+"), case.shift), r.is_ok() && case.steps.len() >= 1);
     check.bump(&format!("archive_patch_{scen}_{outcome}"), 1);
+    if origin == "ap-grid" && r.is_ok() && case.scenario == Scenario::Plain {
+        for (st, ty) in storage.iter().zip(types.iter()) {
+            check.bump(&format!("essential_accepted:archive-level {ty} stored as {st}"), 1);
+        }
+        if case.steps.len() >= 2 {
+            check.bump("essential_accepted:archive-level two patches in sequence", 1);
+        }
+    }
     if let Err(e) = &r {
         let key: String = e.to_string().chars().filter(|c| !c.is_ascii_digit()).take(40).collect();
         check.bump(&format!("archive_patch_{scen}_err:{key}"), 1);
@@ -326,6 +334,11 @@ pub fn run_all(check: &Check) {
         |c| json!({"kind": "archive-patch", "case": c}),
         |c| run(check, c, "ap"),
     );
+    for key in ["BSD0 stored as raw", "BSD0 stored as zlib", "BSD0 stored as sectors", "COPY stored as raw", "COPY stored as zlib", "COPY stored as sectors", "two patches in sequence"] {
+        if check.counter(&format!("essential_accepted:archive-level {key}")) == 0 {
+            check.inconclusive(&format!("no archive-level grid case of the class '{key}' was accepted: vacuous for that class"));
+        }
+    }
     check.set_extra(
         "archive_level_patch_acceptance",
         json!({
